@@ -142,7 +142,7 @@ theorem Coup.mono {E now P P' busy m} (h : Coup E now P busy m) (hp : ∀ x, P' 
 structure PInv (E : Env) (s : St) (pre : List Item) (a : PAcc) : Prop where
   del_sub : ∀ d ∈ a.toDel, d ∈ pre
   ins_from : ∀ i ∈ a.toIns, ∃ d ∈ a.toDel, ∃ n, E.nx d.sc d.next = some n ∧
-      i = { d with next := n, whn := n + d.off }
+      i = { d with next := n, whn := n + secUp d.off }
   mon : ∃ m, Tr E.nx (a.evs ++ s.trace) m ∧
       Coup E s.now (fun x => (x ∈ s.queue ∧ x ∉ a.toDel) ∨ x ∈ a.toIns) a.busy m
 
@@ -166,16 +166,22 @@ theorem pinv_visit {E : Env} (hincr : Incr E.nx) {s : St} (hq : QInv s) {pre : L
       | some r =>
         obtain ⟨y, hy, _⟩ := hc.run_busy it.id (by simp [hr])
         rw [hb] at hy; cases hy
-    have hdue' : it.next + it.off ≤ s.now := by simpa [isDue_def] using hdue
+    have hdue' : it.next + secUp it.off ≤ s.now := by simpa [isDue_def] using hdue
     have hwhn := hq.whn it hit
     let v := m.view it.id
     let m' := m.set it.id { v with expect := E.nx it.sc it.next, run := some { occ := it.next, floor := v.ck } }
-    have hstep : monStep E.nx m (Ev.start it.id it.next it.whn) = .ok m' := by
+    have hstep : monStep E.nx m (Ev.start it.id it.next (it.whn - early it.off)) = .ok m' := by
       simp only [monStep]
       rw [hep]
       simp only [hrun, Option.isSome_none, Bool.false_eq_true, ite_false, hex, ne_eq, not_true_eq_false]
-      have h1 : ¬ (it.next + it.off > m.now) := by rw [hc.now_eq]; omega
-      simp [h1, hwhn, m', v, hep]
+      have h1 : ¬ (it.next * 1000 + it.off > m.now * 1000) := by
+        rw [hc.now_eq]
+        have := le_secUp it.off
+        omega
+      have h2 : it.whn - early it.off = it.next + it.off.tdiv 1000 := by
+        have := secUp_sub_early it.off
+        omega
+      simp [h1, h2, m', v, hep]
     have hview : ∀ id', id' ≠ it.id → m'.view id' = m.view id' := by
       intro id' hne
       simp only [m', view_set, Ne.symm hne, ite_false]
@@ -197,7 +203,7 @@ theorem pinv_visit {E : Env} (hincr : Incr E.nx) {s : St} (hq : QInv s) {pre : L
     -- the coupling after the `start` event, for any pending set that adds at most the successor of `it`
     have hcoup : ∀ (P : Item → Prop),
         (∀ x, P x → (x.id ≠ it.id ∧ ((x ∈ s.queue ∧ x ∉ a.toDel) ∨ x ∈ a.toIns)) ∨
-                    (∃ n, E.nx it.sc it.next = some n ∧ x = { it with next := n, whn := n + it.off })) →
+                    (∃ n, E.nx it.sc it.next = some n ∧ x = { it with next := n, whn := n + secUp it.off })) →
         Coup E s.now P (aset a.busy (E.wk it.id) it) m' := by
       intro P hP
       refine ⟨by simp [m', hc.now_eq], ?_, ?_, ?_, ?_, ?_⟩
